@@ -1,63 +1,83 @@
 package main
 
 import (
-	"github.com/cosmos/cosmos-sdk/baseapp"
+	"encoding/json"
+	"flag"
 	"fmt"
 	"os"
-	"time"
+	"sort"
+	"strconv"
 
-	"saoverif/actors"
-	"saoverif/chain"
-	"saoverif/world"
+	"saoverif/check"
+	_ "saoverif/props"
 )
 
 func main() {
 	if len(os.Args) < 2 {
-		fmt.Println("usage: saomon <cmd>")
-		os.Exit(2)
+		usage()
 	}
 	switch os.Args[1] {
-	case "smoke":
-		smoke()
+	case "job":
+		// saomon job '<json>' <out>
+		var job check.Job
+		if err := json.Unmarshal([]byte(os.Args[2]), &job); err != nil {
+			fmt.Println("bad job:", err)
+			os.Exit(2)
+		}
+		out := "-"
+		if len(os.Args) > 3 {
+			out = os.Args[3]
+		}
+		check.RunJob(job, out)
+	case "check":
+		fs := flag.NewFlagSet("check", flag.ExitOnError)
+		tier := fs.String("tier", envOr("VERIF_TIER", "quick"), "quick|thorough")
+		seed := fs.Int64("seed", envInt("VERIF_SEED", 1), "seed")
+		par := fs.Int("par", 14, "parallel jobs")
+		fs.Parse(os.Args[3:])
+		os.Exit(check.RunCheck(os.Args[2], *tier, *seed, *par))
+	case "replay":
+		b, err := os.ReadFile(os.Args[2])
+		if err != nil {
+			fmt.Println(err)
+			os.Exit(2)
+		}
+		var r struct {
+			Job check.Job `json:"job"`
+		}
+		json.Unmarshal(b, &r)
+		check.RunJob(r.Job, "-")
+	case "list":
+		var ids []string
+		for id := range check.Specs() {
+			ids = append(ids, id)
+		}
+		sort.Strings(ids)
+		for _, id := range ids {
+			fmt.Println(id)
+		}
 	default:
-		fmt.Println("unknown command")
-		os.Exit(2)
+		usage()
 	}
 }
 
-func smoke() {
-	t0 := time.Now()
-	c := chain.New(chain.Options{BaseAppOpts: []func(*baseapp.BaseApp){baseapp.SetTrace(true)}})
-	w := world.New(1, c)
-	gw := w.Acct("gw")
-	sps := []*actors.Account{w.Acct("sp1"), w.Acct("sp2"), w.Acct("sp3")}
-	owner := actors.NewKeyDid("alice")
-	pay := w.Acct("pay-alice")
-	funded := append([]*actors.Account{gw, pay}, sps...)
-	gen := w.StandardGenesis(chain.DefaultNodeParams(), funded, 1_000_000_000, nil)
-	if err := w.Init(gen, 1); err != nil {
-		fmt.Println("init:", err)
-		os.Exit(1)
+func usage() {
+	fmt.Println("usage: saomon check <ID> [--tier quick|thorough] [--seed N] | job <json> <out> | replay <file> | list")
+	os.Exit(2)
+}
+
+func envOr(k, d string) string {
+	if v := os.Getenv(k); v != "" {
+		return v
 	}
-	g := w.SetupProvider(gw, 0)
-	for _, s := range sps {
-		w.CreateNode(s)
-		e := w.AddVstorage(s, 50_000_000)
-		fmt.Println("addv", e.OK, e.Res.Log)
-		w.ResetNode(s, world.StatusAll, nil, "")
-		w.Providers = append(w.Providers, &world.Provider{Acct: s})
+	return d
+}
+
+func envInt(k string, d int64) int64 {
+	if v := os.Getenv(k); v != "" {
+		if n, err := strconv.ParseInt(v, 10, 64); err == nil {
+			return n
+		}
 	}
-	e := w.SetKeyDidPayment(owner, pay)
-	fmt.Println("payaddr", e.OK, e.Res.Log)
-	w.EndBlock()
-	did := w.NewDataId()
-	ev, oid := w.Store(world.StoreReq{Owner: owner, Gateway: g, DataId: did, CommitId: did, Duration: 3600, Replica: 2, Timeout: 100, Size: 1000000})
-	fmt.Println("store", ev.OK, oid, ev.Res.Log, ev.Res.GasUsed)
-	w.EndBlock()
-	fmt.Println("completed", w.CompleteAll(oid))
-	w.EndBlock()
-	fmt.Println("orders", len(w.Cur.Orders), "shards", len(w.Cur.Shards), "metas", len(w.Cur.Metas))
-	w.Advance(3700)
-	fmt.Println("after: orders", len(w.Cur.Orders), "shards", len(w.Cur.Shards), "metas", len(w.Cur.Metas), "halt", w.Halt)
-	fmt.Println("height", c.Height, "elapsed", time.Since(t0), "trace", w.Trace)
+	return d
 }
